@@ -37,7 +37,10 @@ def gen(rng, tier):
     npeers = rng.randrange(2, 7)
     served = rng.sample(NSS, rng.randrange(1, 4))
     cfg = {'mode': mode, 'served': served, 'lat': rng.randrange(len(LATS)),
-           'msgpack': rng.random() < 0.15}
+           'msgpack': rng.random() < 0.15,
+           # asyncio: sends suspend for a seeded time (a membership change
+           # issued meanwhile runs while the emit is half-way through)
+           'send_pauses': rng.random() < 0.4}
     ops = []
     for p in range(npeers):
         ops.append(['open', p])
@@ -94,7 +97,8 @@ def gen(rng, tier):
                 race = [rng.choice(['enter', 'leave', 'close', 'disc']),
                         rng.randrange(npeers), room()]
             ops.append(['emit', ns, to, skip, race,
-                        rng.choice(['room', 'to'])])
+                        rng.choice(['room', 'to']),
+                        rng.random() < 0.3])     # payload with bytes
     return {'cfg': cfg, 'ops': ops}
 
 
@@ -167,7 +171,9 @@ def run(case):
     cfg = case['cfg']
     w = make_world(cfg['mode'], seed=case['seed'],
                    choices_replay=case.get('choices'),
-                   lat=LATS[cfg['lat']], msgpack=cfg['msgpack'])
+                   lat=LATS[cfg['lat']], msgpack=cfg['msgpack'],
+                   send_pauses=(0.0, 0.001, 0.004)
+                   if cfg.get('send_pauses') else None)
     try:
         return _run(case, cfg, w)
     finally:
@@ -305,7 +311,8 @@ def _run(case, cfg, w):
                 if srv.rooms(sid, ns):
                     v.add('rooms_after_disconnect', (where, srv.rooms(sid, ns)))
         elif k == 'emit':
-            _, ns, to_s, skip_s, race, argname = op
+            _, ns, to_s, skip_s, race, argname = op[:6]
+            binary = len(op) > 6 and op[6]
             to = res_target(to_s, ns)
             skip = res_target(skip_s, ns)
             n_emit += 1
@@ -322,6 +329,8 @@ def _run(case, cfg, w):
             kw = {'namespace': ns, 'skip_sid': skip}
             kw[argname] = to
             raced = False
+            payload = (tag, b'\x00\x01' + tag.encode()) if binary else tag
+            want_data = ['ev', tag] + ([payload[1]] if binary else [])
             if race is not None and w.mode == 'async':
                 # a membership change issued in the same instant, before or
                 # after the emit (seeded); sequential code paths - the emit
@@ -347,7 +356,7 @@ def _run(case, cfg, w):
                         return w.api('s', 'disconnect', rsid, namespace=ns)
                 if first:
                     do_race()
-                h = w.api('s', 'emit', 'ev', tag, **kw)
+                h = w.api('s', 'emit', 'ev', payload, **kw)
                 if not first:
                     do_race()
                 # model side
@@ -363,7 +372,7 @@ def _run(case, cfg, w):
                         sc.forget(rp, ns)
                     probes['emit_raced'] += 1
             else:
-                h = w.api('s', 'emit', 'ev', tag, **kw)
+                h = w.api('s', 'emit', 'ev', payload, **kw)
             w.settle()
             api_ok(h, where, allow=())
             after = set(model.recipients(ns, to, skip))
@@ -371,7 +380,7 @@ def _run(case, cfg, w):
             for pe, pk in sc.since(mark):
                 if pk.base == sio.EVENT and isinstance(pk.data, list) and \
                         pk.data[:1] == ['ev']:
-                    if pk.data != ['ev', tag]:
+                    if pk.data != want_data:
                         v.add('wrong_payload', (where, pk))
                     got[(id(pe), pk.nsp)] = got.get((id(pe), pk.nsp), 0) + 1
 
@@ -403,6 +412,17 @@ def _run(case, cfg, w):
     for e in w.rec.errors:
         v.add('error_logged', '%s %s' % (e['msg'], e.get('exc')),
               (e.get('exc') or e['msg']).split(':')[0][:40])
+    # every transport's stream is well formed: a binary header is followed
+    # by its attachments, no attachment arrives on its own
+    for pe in w.peers:
+        if pe.asm.errors:
+            v.add('stream_corrupted', 'peer %s: %s' % (pe.idx,
+                                                       pe.asm.errors[:2]),
+                  'incomplete')
+        stray = [r['pkt'] for r in pe.rx if r['pkt'].type == 'stray-binary']
+        if stray:
+            v.add('stream_corrupted', 'peer %s: attachment without a '
+                  'header: %s' % (pe.idx, stray[:2]), 'stray')
     stats = {'probes': probes, 'emits': n_emit, 'states': len(states)}
     return {'violations': v.items, 'digest': w.rec.digest.hex(),
             'nontrivial': nontrivial, 'stats': stats,
